@@ -36,7 +36,9 @@ Definition example_ops : list op3 :=
     OParse2 2%nat Positive 4 (repeat (PD 15) 20 ++ [PBad] ++ repeat (PD 3) 20);
     OParseN 2%nat Positive (10 ^ 19) [Some 1234567; Some 1; Some 99];
     OParseN 3%nat Positive (10 ^ 19) [Some 1234567; None; Some 99];
-    OChunks 0%nat 70; OChunks 1%nat 400 ].
+    OChunks 0%nat 70; OChunks 1%nat 400;
+    (* set_bit(2^62) on a heap value: the growth fails, the panic unwinds, the value's block is freed exactly once *)
+    OGrowFail 0%nat (2 ^ 62) ].
 
 Ltac pre_tac :=
   cbn [pre_along];
